@@ -274,7 +274,10 @@ class SimpleAsn1Type(Asn1Type):
         Asn1Type.__init__(self, **kwargs)
         if value is noValue:
             value = self.defaultValue
-        else:
+
+        if value is not noValue:
+            # a class-level default is a value like any other: it is
+            # normalised and has to satisfy the constraints of the type
             value = self.prettyIn(value)
             try:
                 self.subtypeSpec(value)
